@@ -247,6 +247,15 @@ class C03(Check):
         same = all(np.allclose(np.ravel(getattr(S0b, k))[0], a[j], rtol=1e-13, atol=1e-13 * Lsc)
                    for k, a in (('x', x0), ('y', y0), ('z', z0), ('L', L), ('M', M), ('N', N)))
         out.expect('scalar_equals_array', same, combo=label)
+        # integer-typed arrays (pupil and field coordinates that happen to be whole numbers) give the same launch as floats
+        whole = np.where((Px == np.round(Px)) & (Py == np.round(Py)) & (Hy == np.round(Hy)))[0]
+        if len(whole):
+            o.trace_generic(np.zeros(len(whole), dtype=int), Hy[whole].astype(int), Px[whole].astype(int),
+                            Py[whole].astype(int), w)
+            S0c = o.surface_group.surfaces[0]
+            same_i = all(np.allclose(np.ravel(getattr(S0c, k)).astype(float), a[whole], rtol=1e-13, atol=1e-13 * Lsc, equal_nan=True)
+                         for k, a in (('x', x0), ('y', y0), ('z', z0), ('L', L), ('M', M), ('N', N)))
+            out.expect('integer_arrays_equal_float_arrays', same_i, combo=label, n=len(whole))
         stop = ps.stop
         return bool(np.any((Hy != 0) & ((Px != 0) | (Py != 0))) and stop != 1 and mf > 0)
 
